@@ -31,8 +31,7 @@ SRC = ["events/events.c", "events/events_immediate.c", "events/events_network.c"
        "datastruct/elasticarray.c", "datastruct/ptrheap.c", "datastruct/timerqueue.c"]
 WRAPS = ["recv", "send", "accept", "connect", "socket", "close", "poll", "getsockopt", "setsockopt",
          "fcntl", "fcntl64", "malloc", "calloc", "realloc", "free"]
-ASAN_ENV = {"ASAN_OPTIONS": "detect_leaks=1:abort_on_error=0:exitcode=1", "LSAN_OPTIONS": "exitcode=23",
-            "UBSAN_OPTIONS": "halt_on_error=1:exitcode=1"}
+ASAN_ENV = {"ASAN_OPTIONS": "detect_leaks=1:abort_on_error=0:exitcode=1", "UBSAN_OPTIONS": "halt_on_error=1:exitcode=1"}
 
 
 # ------------------------------------------------------------------ byte patterns and rendering
@@ -262,3 +261,1005 @@ class KQ:
         return sum(e[2] for e in self.q if e[0] == "d")
 
 
+# ------------------------------------------------------------------ independent checker for "sc" cases
+RX_RS = re.compile(r"^([RS])(\d+):(u(\d+)|nb|\?):(\d+):(\d+):(\d+)=(\S+)$")
+RX_ACC = re.compile(r"^A(\d+):(-?\d+)=(\S+)$")
+RX_CB = re.compile(r"^cb(\d+)=(-?\d+)(?::(\S+))?$")
+RX_START = re.compile(r"^([rwa])(\d+)=(ok|null)$")
+RX_NRW = re.compile(r"^nrw(\d+)=(-?\d+)$")
+RX_NRCB = re.compile(r"^nrcb=(-?\d+):(\d+):(\S+)$")
+RX_NRC = re.compile(r"^nrc(\d+)$")
+RX_NW = re.compile(r"^(nww|nwr|nwc)(\d+)=(\S+)$")
+
+SIG_CANCEL_LOSS = "netbuf_read.cancel_partial_loss"
+
+
+def check_sc(case, toks, allocfail=False):
+    """Evaluate the C06 / C07 predicates on the implementation's log (tokens up to 'end').
+    Returns (violations, known): violations = list of strings for anything that is wrong and NOT
+    explained by the listed finding; known = description if the only discrepancy is the listed
+    finding 'bytes lost by cancelling a wait after a partial arrival' (strict reading of C07)."""
+    bad = []
+
+    def V(msg):
+        if len(bad) < 6:
+            bad.append(msg)
+
+    try:
+        _, info = parse_sc(case.split()[1:])
+    except Exception as e:  # generator bug
+        return ["checker cannot parse case: %s" % e], None
+    if not toks or toks[-1] != "end":
+        return ["log does not reach 'end' (crash or abort): ... " + " ".join(toks[-6:])], None
+    kq = {k: KQ(v) for k, v in info["feeds"].items()}
+    req = {}        # id -> state
+    slot = {}       # (fd, wr) -> id of the user request holding the registration
+    expect = None   # ("cb", id, value) | ("fail",) | ("nrcb", status): what the next token must be
+    wire = {}       # fd -> bytearray of the bytes the checker believes were handed to send
+    nsock = 0
+    known = None
+    # buffered reader, as the application is entitled to see it
+    nr = {"fd": info["nr_fd"], "wait": None, "visible": bytearray(), "pending": bytearray(), "consumed": 0,
+          "ended": False, "imm": False, "lost": 0}
+    # buffered writer
+    nw = {"fd": info["nw_fd"], "accepted": bytearray(), "failed": False, "nfail": 0, "wi": 0,
+          "sent": 0, "fl_len": None, "fl_pos": 0}
+    wops = info["wops"]
+
+    def getkq(fd, wr):
+        if (fd, wr) not in kq:
+            kq[(fd, wr)] = KQ([])
+        return kq[(fd, wr)]
+
+    def observe_reader(t, shown):
+        """a peek of the reader: shown = '<len>:<show>'"""
+        nonlocal known
+        if nr["ended"]:
+            return      # after EOF / error nothing more is promised
+        lossy = bytes(nr["visible"][nr["consumed"]:])
+        if shown == lshow(lossy):
+            if nr["lost"] > 0 and known is None:
+                known = ("%s: %d byte(s) received by a cancelled wait are missing from the stream the "
+                         "application sees" % (t, nr["lost"]))
+            return
+        V("%s: reader should show the %d unconsumed byte(s) of the peer stream (%s)" % (t, len(lossy), lshow(lossy)))
+
+    for ti, t in enumerate(toks[:-1]):
+        if expect is not None:
+            ok = False
+            if expect[0] == "cb":
+                m = RX_CB.match(t)
+                ok = bool(m) and int(m.group(1)) == expect[1]
+            elif expect[0] == "fail":
+                ok = (t == "fail")
+            elif expect[0] == "nrcb":
+                ok = bool(RX_NRCB.match(t))
+            if not ok:
+                V("after a terminal kernel answer the next event must be the %s, got %s" % (
+                    {"cb": "callback of request %s" % (expect[1],), "fail": "fail callback", "nrcb": "wait callback"}[expect[0]], t))
+                expect = None
+        m = RX_START.match(t)
+        if m:
+            kind, rid, ok = m.group(1), int(m.group(2)), m.group(3) == "ok"
+            o = info["req"].get(rid)
+            if o is None or o.kind != kind:
+                V("start of unknown request " + t)
+                continue
+            key = (o.fd, kind == "w")
+            if ok:
+                if key in slot:
+                    V("request %d registered although %d still holds (fd %d, %s)" % (rid, slot[key], o.fd, kind))
+                slot[key] = rid
+                req[rid] = {"o": o, "st": "pending", "pos": 0, "got": bytearray()}
+            else:
+                if key not in slot and not allocfail and not (
+                        (nr["fd"] == o.fd and kind != "w" and nr["wait"] is not None) or
+                        (nw["fd"] == o.fd and kind == "w" and nw["fl_len"] is not None)):
+                    V("request %d refused although (fd %d, %s) is free" % (rid, o.fd, kind))
+                if rid not in req:
+                    req[rid] = {"o": o, "st": "refused", "pos": 0, "got": bytearray()}
+            continue
+        m = RX_RS.match(t)
+        if m:
+            isw = m.group(1) == "S"
+            fd, who, blk, off, ln, ret = int(m.group(2)), m.group(3), int(m.group(5)), int(m.group(6)), int(m.group(7)), m.group(8)
+            q = getkq(fd, isw)
+            if off + ln > blk:
+                V("%s: range [%d, %d) leaves the %d-byte block" % (t, off, off + ln, blk))
+            if ln == 0:
+                V("%s: zero-length transfer requested" % t)
+            if who == "?":
+                V("%s: transfer outside any known buffer" % t)
+                continue
+            a = q.send(ln) if isw else q.recv(ln)
+            if ret != str(a[1]):
+                V("%s: the scripted kernel answers %s here" % (t, a[1]))
+            if who.startswith("u"):
+                rid = int(m.group(4))
+                r = req.get(rid)
+                if r is None or r["st"] != "pending":
+                    V("%s: transfer for request %d which is %s" % (t, rid, r["st"] if r else "unknown"))
+                    continue
+                o = r["o"]
+                if o.fd != fd or (o.kind == "w") != isw:
+                    V("%s: wrong descriptor/direction for request %d" % (t, rid))
+                if blk != o.buflen or off != r["pos"] or off + ln != o.buflen:
+                    V("%s: request %d must ask for exactly buflen-bufpos=%d bytes at offset %d" % (t, rid, o.buflen - r["pos"], r["pos"]))
+                if isw:
+                    wire.setdefault(fd, bytearray())
+                    if a[0] == "N":
+                        n = a[1]
+                        wire[fd] += pat_bytes(100 + rid, off, n)
+                        r["pos"] += n
+                        if r["pos"] >= o.min:
+                            expect = ("cb", rid, r["pos"])
+                    elif a[1] not in RETRY_RW:
+                        expect = ("cb", rid, -1)
+                else:
+                    if a[0] == "N":
+                        n = a[1]
+                        if n == 0:
+                            expect = ("cb", rid, 0)
+                        else:
+                            r["got"] += pat_bytes(fd, a[2], n)
+                            r["pos"] += n
+                            if r["pos"] >= o.min:
+                                expect = ("cb", rid, r["pos"])
+                    elif a[1] not in RETRY_RW:
+                        expect = ("cb", rid, -1)
+            elif isw:
+                # a buffer of the buffered writer
+                wire.setdefault(fd, bytearray())
+                if nw["fd"] != fd:
+                    V("%s: send from an internal buffer on a descriptor without a writer" % t)
+                    continue
+                if nw["failed"]:
+                    V("%s: send after the writer failed" % t)
+                if nw["fl_len"] is None:
+                    # a new network_write: offset 0, length = the whole buffer contents
+                    if off != 0:
+                        V("%s: a new in-flight buffer must start at offset 0" % t)
+                    nw["fl_len"], nw["fl_pos"] = off + ln, off
+                    if nw["sent"] + nw["fl_len"] > len(nw["accepted"]):
+                        V("%s: buffer of %d bytes exceeds the %d accepted and unsent bytes" % (t, nw["fl_len"], len(nw["accepted"]) - nw["sent"]))
+                elif off != nw["fl_pos"] or off + ln != nw["fl_len"]:
+                    V("%s: in-flight buffer of %d bytes is at offset %d" % (t, nw["fl_len"], nw["fl_pos"]))
+                if blk < RBUF:
+                    V("%s: writer buffer smaller than WBUFLEN" % t)
+                if a[0] == "N":
+                    n = a[1]
+                    wire[fd] += nw["accepted"][nw["sent"]:nw["sent"] + n]
+                    nw["sent"] += n
+                    nw["fl_pos"] += n
+                    if nw["fl_pos"] >= nw["fl_len"]:
+                        nw["fl_len"] = None
+                elif a[1] not in RETRY_RW:
+                    nw["fl_len"] = None
+                    expect = ("fail",)
+            else:
+                # the buffered reader's network_read
+                if nr["fd"] != fd or nr["wait"] is None:
+                    V("%s: recv into an internal buffer while no wait is pending" % t)
+                    continue
+                if off + ln != blk:
+                    V("%s: the reader must offer the whole tail of its buffer" % t)
+                if blk < RBUF:
+                    V("%s: reader buffer smaller than %d" % (t, RBUF))
+                have = len(nr["visible"]) + len(nr["pending"]) - nr["consumed"]
+                if ln < nr["wait"] - have:
+                    V("%s: asks for %d bytes but %d are still needed" % (t, ln, nr["wait"] - have))
+                if a[0] == "N" and a[1] > 0:
+                    nr["pending"] += pat_bytes(fd, a[2], a[1])
+                    if have + a[1] >= nr["wait"]:
+                        expect = ("nrcb", 0)
+                elif a[0] == "N":
+                    expect = ("nrcb", 1)
+                elif a[1] not in RETRY_RW:
+                    expect = ("nrcb", -1)
+            continue
+        m = RX_ACC.match(t)
+        if m:
+            fd, rid, ret = int(m.group(1)), int(m.group(2)), m.group(3)
+            r = req.get(rid)
+            if r is None or r["st"] != "pending" or r["o"].kind != "a" or r["o"].fd != fd:
+                V("%s: accept(2) for a request that is not pending" % t)
+                continue
+            a = getkq(fd, False).accept()
+            if a[0] == "S":
+                if ret != "s%d" % nsock:
+                    V("%s: expected descriptor ordinal s%d" % (t, nsock))
+                expect = ("cb", rid, nsock)
+                nsock += 1
+            else:
+                if ret != a[1]:
+                    V("%s: the scripted kernel answers %s here" % (t, a[1]))
+                if a[1] not in RETRY_ACC:
+                    expect = ("cb", rid, -1)
+            continue
+        m = RX_CB.match(t)
+        if m:
+            rid, v, sh = int(m.group(1)), int(m.group(2)), m.group(3)
+            r = req.get(rid)
+            if r is None or r["st"] != "pending":
+                V("%s: callback for request %d which is %s" % (t, rid, r["st"] if r else "unknown"))
+                expect = None
+                continue
+            if expect is None or expect[0] != "cb" or expect[1] != rid:
+                V("%s: callback without a terminal kernel answer (spurious or repeated)" % t)
+            elif expect[2] != v and not (allocfail and v == -1):
+                V("%s: callback value should be %d" % (t, expect[2]))
+            expect = None
+            o = r["o"]
+            r["st"] = "done"
+            if slot.get((o.fd, o.kind == "w")) == rid:
+                del slot[(o.fd, o.kind == "w")]
+            if o.kind == "r":
+                if v > 0 and not (o.min <= v <= o.buflen and v == len(r["got"])):
+                    V("%s: n must satisfy min=%d <= n <= buflen=%d and equal the %d bytes received" % (t, o.min, o.buflen, len(r["got"])))
+                want = show(bytes(r["got"]) + b"\xee" * (o.buflen - len(r["got"])))
+                if sh != want:
+                    V("%s: buffer should hold exactly the next %d bytes of the peer stream and nothing else (%s)" % (t, len(r["got"]), want))
+            elif o.kind == "w":
+                if v > 0 and not (o.min <= v <= o.buflen and v == r["pos"]):
+                    V("%s: n must satisfy min <= n <= buflen and equal the bytes handed to send" % t)
+            continue
+        if t.startswith("x") and t[1:].isdigit():
+            rid = int(t[1:])
+            r = req.get(rid)
+            if r is None or r["st"] != "pending":
+                V("%s: cancel logged for a request that is not pending" % t)
+                continue
+            r["st"] = "cancelled"
+            o = r["o"]
+            if slot.get((o.fd, o.kind == "w")) == rid:
+                del slot[(o.fd, o.kind == "w")]
+            continue
+        if t.startswith("pend"):
+            rid = int(t[4:])
+            r = req.get(rid)
+            if r is None or r["st"] != "pending":
+                V("%s: listed as pending but is %s" % (t, r["st"] if r else "unknown"))
+            else:
+                r["listed"] = True
+                o = r["o"]
+                if not getkq(o.fd, o.kind == "w").empty() and not allocfail:
+                    V("request %d still pending although the kernel has answers queued for fd %d" % (rid, o.fd))
+            continue
+        if t.startswith("wire"):
+            fd, rest = t[4:].split("=", 1)
+            fd = int(fd)
+            want = lshow(bytes(wire.get(fd, b"")))
+            if rest != want:
+                V("%s: bytes received by the wrapped send should be %s" % (t, want))
+            wire["seen%d" % fd] = True
+            continue
+        if t.startswith("left"):
+            fd, n = t[4:].split("=")
+            if int(n) != getkq(int(fd), False).data_left():
+                V("%s: %d bytes of the peer stream are still in the kernel" % (t, getkq(int(fd), False).data_left()))
+            continue
+        # ---- buffered reader
+        if t.startswith("nri="):
+            continue
+        m = RX_NRW.match(t)
+        if m:
+            k, rc = int(m.group(1)), int(m.group(2))
+            if rc == 0:
+                if nr["wait"] is not None:
+                    V("%s: wait accepted while another is pending" % t)
+                nr["wait"] = k
+                nr["pending"] = bytearray()
+                nr["imm"] = (len(nr["visible"]) - nr["consumed"] >= k)
+                nr["recvs"] = 0
+            elif not allocfail:
+                V("%s: wait failed without an allocation failure" % t)
+            continue
+        m = RX_NRCB.match(t)
+        if m:
+            st, ln, sh = int(m.group(1)), int(m.group(2)), m.group(3)
+            if nr["wait"] is None:
+                V("%s: wait callback while no wait is pending" % t)
+                expect = None
+                continue
+            k = nr["wait"]
+            if nr["imm"]:
+                if st != 0 or len(nr["pending"]) > 0 or expect is not None:
+                    V("%s: a wait for %d with %d bytes buffered completes by an immediate event with status 0" % (t, k, len(nr["visible"]) - nr["consumed"]))
+            elif expect is None or expect[0] != "nrcb":
+                V("%s: wait callback without a terminal kernel answer" % t)
+            elif expect[1] != st and not (allocfail and st == -1):
+                V("%s: status should be %d" % (t, expect[1]))
+            expect = None
+            if st == 0:
+                nr["visible"] += nr["pending"]
+            else:
+                nr["ended"] = True      # EOF / error reported: nothing is promised from here on
+            nr["pending"] = bytearray()
+            nr["wait"] = None
+            if st == 0 and ln < k:
+                V("%s: success reported with %d < %d bytes buffered" % (t, ln, k))
+            observe_reader(t, "%d:%s" % (ln, sh))
+            continue
+        m = RX_NRC.match(t)
+        if m:
+            j = int(m.group(1))
+            if j > len(nr["visible"]) - nr["consumed"] and not nr["ended"]:
+                V("%s: consumes more than is buffered" % t)
+            nr["consumed"] += j
+            continue
+        if t == "nrx":
+            if nr["wait"] is not None and len(nr["pending"]) > 0:
+                nr["lost"] += len(nr["pending"])     # strict reading: these bytes must not vanish
+            nr["wait"] = None
+            nr["pending"] = bytearray()
+            continue
+        if t.startswith("peek="):
+            observe_reader(t, t[5:])
+            continue
+        # ---- buffered writer
+        if t.startswith("nwi="):
+            continue
+        m = RX_NW.match(t)
+        if m:
+            kind, n, rc = m.group(1), int(m.group(2)), m.group(3)
+            while nw["wi"] < len(wops) and not (wops[nw["wi"]].kind == kind and
+                                                (wops[nw["wi"]].j if kind == "nwc" else wops[nw["wi"]].n) == n):
+                nw["wi"] += 1
+            if nw["wi"] >= len(wops):
+                V("%s: no such writer operation in the script" % t)
+                continue
+            o = wops[nw["wi"]]
+            if not (allocfail and rc in ("null", "-1") and kind in ("nwr",)):
+                nw["wi"] += 1
+            if kind == "nwr":
+                if rc != "ok" and not allocfail:
+                    V("%s: reserve failed without an allocation failure" % t)
+                continue
+            if rc not in ("0", "-1") or (rc == "-1" and not allocfail):
+                V("%s: unexpected return value" % t)
+            if nw["failed"]:
+                if rc != "0":
+                    V("%s: writes after a failure must return 0" % t)
+            elif not (kind == "nww" and rc == "-1" and allocfail == "reserve"):
+                nw["accepted"] += pat_bytes(200, o.pos, n)
+            continue
+        if t == "fail":
+            nw["nfail"] += 1
+            if expect is None or expect[0] != "fail":
+                V("fail callback without a transport failure")
+            if nw["nfail"] > 1:
+                V("fail callback fired more than once")
+            expect = None
+            nw["failed"] = True
+            continue
+        if t.startswith("nfail="):
+            if int(t[6:]) != nw["nfail"]:
+                V("%s: %d fail callbacks were logged" % (t, nw["nfail"]))
+            continue
+        if t.startswith("run="):
+            if not allocfail:
+                V("%s: event loop reported an error" % t)
+            continue
+        if t == "skip":
+            continue
+        V("unexpected token " + t)
+    for rid, r in req.items():
+        if r["st"] == "pending" and not r.get("listed"):
+            V("request %d neither completed, cancelled nor listed as pending" % rid)
+    if expect is not None:
+        V("terminal kernel answer without the %s that must follow" % expect[0])
+    for fd in [k for k in wire if isinstance(k, int)]:
+        if not wire.get("seen%d" % fd):
+            V("no wire%d= line for bytes handed to send" % fd)
+    if nw["fd"] is not None and not nw["failed"] and not allocfail:
+        # whole stream when the transport never fails: anything accepted and not on the wire must
+        # be explained by the kernel having no room left
+        unsent = len(nw["accepted"]) - nw["sent"]
+        if unsent > 0 and not getkq(nw["fd"], True).empty() and case.split()[-1] == "run" and \
+                not any(o.kind == "nwr" for o in wops):
+            V("writer holds %d unsent byte(s) although the kernel still has room scripted" % unsent)
+    return bad, known
+
+
+def extras_ok(extra, status, allocfail=False):
+    """impl-only tokens after 'end' and the parent's !status tokens -> list of violations"""
+    bad = []
+    for s in status:
+        bad.append({"!LEAK": "LeakSanitizer: memory leaked by this case",
+                    "!EXIT1": "sanitizer report (AddressSanitizer / UBSan / leak at exit)",
+                    "!SIG6": "abort (failed assert)"}.get(s, "child process died: " + s))
+    for t in extra:
+        if t.startswith("nfds=") and t != "nfds=0":
+            bad.append("descriptors still registered with the event loop after cleanup: " + t)
+        if t == "late-activity":
+            bad.append("a callback or system call happened after everything was cancelled / completed")
+        if t.startswith("cbs=") and int(t[4:]) > 1:
+            bad.append("connect callback invoked %s times" % t[4:])
+    return bad
+
+
+# ------------------------------------------------------------------ independent checker for "conn" cases
+PENDING = {"A": "ECONNREFUSED", "B": "ETIMEDOUT", "T": None, "K": 0, "I": 0, "J": 0}
+CONNRET = {"F": "ECONNREFUSED", "H": "EHOSTUNREACH", "A": "EINPROGRESS", "B": "EINTR", "T": "EINPROGRESS",
+           "K": "EINPROGRESS", "I": "0", "J": "EINTR"}
+
+
+def check_conn(case, toks, extra, allocfail=False):
+    bad = []
+
+    def V(msg):
+        if len(bad) < 6:
+            bad.append(msg)
+
+    _, timeo, outs, cops = case.split()
+    outs = "" if outs == "-" else outs
+    cops = "" if cops == "-" else cops
+    if not toks or toks[-1] != "end":
+        return ["log does not reach 'end' (crash or abort): ... " + " ".join(toks[-6:])]
+    socks = {}          # ordinal -> {"addr":, "closed": n}
+    next_addr = 0       # attempts must visit addresses 0, 1, 2, ... in order
+    cbs = []
+    cancelled = "x" in cops
+    cur = None
+    for t in toks[:-1] + extra:
+        m = re.match(r"^sockfail:a(\d+)$", t)
+        if m:
+            a = int(m.group(1))
+            if a != next_addr:
+                V("%s: addresses must be tried in list order (expected a%d)" % (t, next_addr))
+            if a < len(outs) and outs[a] != "S":
+                V("%s: socket() is scripted to succeed for this address" % t)
+            next_addr = a + 1
+            continue
+        m = re.match(r"^sock(\d+):a(\d+)$", t)
+        if m:
+            s, a = int(m.group(1)), int(m.group(2))
+            if a != next_addr:
+                V("%s: addresses must be tried in list order (expected a%d)" % (t, next_addr))
+            if cbs:
+                V("%s: connection attempt after the callback" % t)
+            next_addr = a + 1
+            socks[s] = {"addr": a, "closed": 0, "gso": None}
+            cur = s
+            continue
+        m = re.match(r"^fcntlfail(\d+)$", t)
+        if m:
+            continue
+        m = re.match(r"^conn(\d+):a(\d+)=(\S+)$", t)
+        if m:
+            s, a, ret = int(m.group(1)), int(m.group(2)), m.group(3)
+            if s not in socks or socks[s]["addr"] != a:
+                V("%s: connect on a descriptor not created for this address" % t)
+            elif CONNRET.get(outs[a]) != ret:
+                V("%s: scripted answer is %s" % (t, CONNRET.get(outs[a])))
+            continue
+        m = re.match(r"^close(\d+)(:EBADF)?$", t)
+        if m:
+            s = int(m.group(1))
+            if m.group(2) or s not in socks:
+                V("%s: close of a descriptor that is not open (closed twice?)" % t)
+                continue
+            socks[s]["closed"] += 1
+            if socks[s]["closed"] > 1:
+                V("%s: descriptor closed twice" % t)
+            if cbs and cbs[0] == s:
+                V("%s: the descriptor handed to the callback was closed by the library" % t)
+            continue
+        m = re.match(r"^gso(\d+)=(\S+)$", t)
+        if m:
+            s, e = int(m.group(1)), m.group(2)
+            if s in socks:
+                socks[s]["gso"] = e
+            continue
+        m = re.match(r"^cb=(-?\d+)$", t)
+        if m:
+            v = int(m.group(1))
+            cbs.append(v)
+            if len(cbs) > 1:
+                V("%s: second callback" % t)
+                continue
+            if cancelled and "x" in cops and False:
+                pass
+            if v >= 0:
+                if v not in socks or socks[v]["closed"]:
+                    V("%s: callback with a descriptor that is not open" % t)
+                else:
+                    a = socks[v]["addr"]
+                    if outs[a] not in "KIJ" or socks[v]["gso"] != "0":
+                        V("%s: address a%d did not connect successfully" % (t, a))
+                    if any(c in "KIJ" for c in outs[:a]):
+                        V("%s: an earlier address of the list connects; the first one must win" % t)
+            else:
+                if next_addr < len(outs) and not allocfail:
+                    V("%s: -1 reported before every address was tried (a%d .. untried)" % (t, next_addr))
+                if any(c in "KIJ" for c in outs) and not allocfail:
+                    # -1 is right only if the successful address was never reached, which cannot be:
+                    # every earlier address fails, so it is reached
+                    V("%s: -1 reported although address a%d connects" % (t, min(i for i, c in enumerate(outs) if c in "KIJ")))
+            continue
+        if t.startswith("start=") or t.startswith("fin=") or t.startswith("open=") or t.startswith("nfds=") or \
+                t.startswith("cbs=") or t.startswith("allocs=") or t.startswith("refused=") or t.startswith("failop=") or \
+                t.startswith("run=") or t == "late-activity":
+            continue
+        V("unexpected token " + t)
+    # every descriptor except the one handed to the application is closed exactly once
+    for s, d in socks.items():
+        won = bool(cbs) and cbs[0] == s
+        if won and d["closed"]:
+            V("descriptor s%d was handed to the callback and closed" % s)
+        if not won and d["closed"] != 1:
+            V("descriptor s%d of a failed / abandoned attempt closed %d times" % (s, d["closed"]))
+    # exactly once: how many events does the script need to deliver before completion?
+    need = 0
+    done_possible = True
+    for c in outs:
+        if c in "SNFH":
+            continue
+        need += 1
+        if c == "T" and timeo == "0":
+            done_possible = False
+            break
+        if c in "KIJ":
+            break
+    else:
+        # list exhausted: the immediate event runs in the same event-loop run as the last failure,
+        # or in the first run when no address ever got as far as a pending connect
+        need = max(need, 1)
+    steps = 0
+    for c in cops:
+        if c == "x":
+            break
+        steps += 1
+    was_cancelled_early = ("x" in cops) and steps < need
+    if not allocfail:
+        if done_possible and steps >= need and not cbs:
+            V("no callback although %d event(s) were delivered and %d suffice" % (steps, need))
+        if (was_cancelled_early or steps < need or not done_possible) and cbs:
+            V("callback although the attempt was cancelled / not finished")
+    return bad
+
+
+# ------------------------------------------------------------------ generators
+def _retry_burst(r, names=("EAGAIN", "EWOULDBLOCK", "EINTR")):
+    return ["e" + r.choice(names) for _ in range(r.choice([0, 0, 0, 1, 1, 2, 3]))]
+
+
+def _read_feed(r, buflen, total, terminal):
+    """kernel events delivering `total` bytes in random pieces with retry bursts, then terminal"""
+    evs = []
+    left = total
+    while left > 0:
+        evs += _retry_burst(r)
+        n = r.choice([1, 1, 2, 3, max(1, buflen - 1), buflen, buflen + 1, 2 * buflen, r.randrange(1, left + 1), left])
+        n = max(1, min(n, left))
+        evs.append("d%d" % n)
+        left -= n
+    evs += _retry_burst(r)
+    if terminal == "eof":
+        evs.append("z")
+    elif terminal == "err":
+        evs.append("e" + r.choice(HARD_RW))
+    return evs
+
+
+def _write_feed(r, buflen, total, terminal):
+    evs = []
+    left = total
+    while left > 0:
+        evs += _retry_burst(r)
+        n = r.choice([1, 1, 2, 3, max(1, buflen - 1), buflen, buflen + 1, 2 * buflen, r.randrange(1, left + 1), left])
+        n = max(1, n)
+        evs.append("n%d" % n)
+        left -= min(n, left)
+    evs += _retry_burst(r)
+    if terminal == "err":
+        evs.append("e" + r.choice(HARD_RW))
+    return evs
+
+
+def _chunks(r, evs):
+    """split an event list into 1..3 feed+run groups"""
+    k = r.choice([1, 1, 2, 3])
+    cuts = sorted(r.randrange(0, len(evs) + 1) for _ in range(k - 1))
+    out, a = [], 0
+    for c in cuts + [len(evs)]:
+        out.append(evs[a:c])
+        a = c
+    return out
+
+
+BUFLENS = [1, 2, 3, 8, 16, 17, 64, 100, 1000, 5000]
+
+
+def _pick_bm(r):
+    b = r.choice(BUFLENS)
+    m = r.choice([0, 1, b // 2, max(0, b - 1), b, b, r.randrange(0, b + 1)])
+    return b, min(m, b)
+
+
+def gen_rw(ctx, n):
+    r = ctx.rng
+    cases = []
+    for _ in range(n):
+        kind = r.choice(["read", "read", "write", "write", "chain", "both", "busy", "cbcancel", "recancel"])
+        ctx.count("rw." + kind)
+        toks = []
+        if kind in ("read", "write"):
+            b, m = _pick_bm(r)
+            fd = r.choice([5, 6, 7])
+            term = r.choice(["none", "none", "eof" if kind == "read" else "none", "err"])
+            need = max(m, 1)
+            if term == "none":
+                total = r.choice([need, need, need + 1, b, b + 3, max(0, need - 1)])
+            else:
+                total = r.choice([0, 0, max(0, need - 1), r.randrange(0, need), need])
+            ctx.count("rw.term." + term)
+            evs = (_read_feed if kind == "read" else _write_feed)(r, b, total, term)
+            toks.append("%s:1:%d:%d:%d" % ("r" if kind == "read" else "w", fd, b, m))
+            groups = _chunks(r, evs)
+            cancel_at = r.choice([None, None, None] + list(range(len(groups) + 1)))
+            for gi, g in enumerate(groups):
+                if cancel_at == gi:
+                    toks.append("x:1")
+                    ctx.count("rw.cancel")
+                    if r.random() < 0.6:
+                        b2, m2 = _pick_bm(r)
+                        toks.append("%s:2:%d:%d:%d" % ("r" if kind == "read" else "w", fd, b2, m2))
+                        ctx.count("rw.restart_after_cancel")
+                if g:
+                    toks.append("k:%d:%s:%s" % (fd, "r" if kind == "read" else "w", ",".join(g)))
+                toks.append("run")
+            if cancel_at == len(groups):
+                toks.append("x:1")
+        elif kind == "chain":
+            fd = r.choice([5, 6])
+            depth = r.choice([2, 2, 3, 4])
+            rd = r.random() < 0.6
+            total = 0
+            spec = []
+            for i in range(depth):
+                b, m = _pick_bm(r)
+                spec.append((b, m))
+                total += r.choice([max(m, 1), b])
+            s = ""
+            for i, (b, m) in enumerate(spec):
+                s += "%s:%d:%d:%d:%d { " % ("r" if rd else "w", i + 1, fd, b, m)
+            s = s.rstrip("{ ").rstrip() + " }" * (depth - 1)
+            toks += s.split()
+            evs = (_read_feed if rd else _write_feed)(r, r.choice([b for b, _ in spec]), total + r.choice([0, 0, 5]),
+                                                      r.choice(["none", "none", "eof" if rd else "none", "err"]))
+            for g in _chunks(r, evs):
+                if g:
+                    toks.append("k:%d:%s:%s" % (fd, "r" if rd else "w", ",".join(g)))
+                toks.append("run")
+        elif kind == "both":
+            fd = r.choice([5, 6])
+            b1, m1 = _pick_bm(r)
+            b2, m2 = _pick_bm(r)
+            toks += ["r:1:%d:%d:%d" % (fd, b1, m1), "w:2:%d:%d:%d" % (fd, b2, m2)]
+            ra = _chunks(r, _read_feed(r, b1, max(m1, 1), r.choice(["none", "eof", "err"])))
+            wa = _chunks(r, _write_feed(r, b2, max(m2, 1), r.choice(["none", "none", "err"])))
+            for i in range(max(len(ra), len(wa))):
+                if i < len(ra) and ra[i]:
+                    toks += ["k:%d:r:%s" % (fd, ",".join(ra[i])), "run"]
+                if i < len(wa) and wa[i]:
+                    toks += ["k:%d:w:%s" % (fd, ",".join(wa[i])), "run"]
+        elif kind == "busy":
+            fd = 5
+            d = r.choice(["r", "w"])
+            b, m = _pick_bm(r)
+            toks += ["%s:1:%d:%d:%d" % (d, fd, b, m), "%s:2:%d:4:1" % (d, fd)]
+            evs = (_read_feed if d == "r" else _write_feed)(r, b, max(m, 1), "none")
+            toks += ["k:%d:%s:%s" % (fd, d, ",".join(evs)), "run", "%s:3:%d:4:1" % (d, fd)]
+            toks += ["k:%d:%s:%s" % (fd, d, "d9" if d == "r" else "n9"), "run"]
+        elif kind == "cbcancel":
+            b, m = _pick_bm(r)
+            toks += ["r:2:6:8:8", "r:1:5:%d:%d" % (b, m), "{", "x:2", "r:3:6:4:2", "}"]
+            toks += ["k:6:r:d3", "run", "k:5:r:" + ",".join(_read_feed(r, b, max(m, 1), "none")), "run",
+                     "k:6:r:d7", "run"]
+        else:  # recancel: cancel, restart on the same descriptor several times
+            fd = 7
+            d = r.choice(["r", "w"])
+            for i in range(1, 4):
+                b, m = _pick_bm(r)
+                toks.append("%s:%d:%d:%d:%d" % (d, i, fd, b, m))
+                part = r.choice([0, 1, max(0, min(m, b) - 1)])
+                if part:
+                    toks += ["k:%d:%s:%s%d" % (fd, d, "d" if d == "r" else "n", part), "run"]
+                if i < 3 or r.random() < 0.5:
+                    toks.append("x:%d" % i)
+        cases.append("sc " + " ".join(toks))
+    return cases
+
+
+def gen_accept(ctx, n):
+    r = ctx.rng
+    cases = []
+    for _ in range(n):
+        toks = []
+        depth = r.choice([1, 1, 2, 3])
+        s = ""
+        for i in range(depth):
+            s += "a:%d:7 { " % (i + 1)
+        s = s.rstrip("{ ").rstrip() + " }" * (depth - 1)
+        toks += s.split()
+        evs = []
+        for i in range(depth + r.choice([0, 0, 1])):
+            evs += _retry_burst(r, ("EAGAIN", "EWOULDBLOCK", "ECONNABORTED", "EINTR"))
+            evs.append(r.choice(["c", "c", "c", "e" + r.choice(HARD_ACC)]))
+        evs += _retry_burst(r, ("EAGAIN", "ECONNABORTED", "EINTR"))
+        groups = _chunks(r, evs)
+        cancel_at = r.choice([None, None, None, 0, 1, 2])
+        for gi, g in enumerate(groups):
+            if cancel_at == gi:
+                toks.append("x:%d" % r.randrange(1, depth + 1))
+                ctx.count("accept.cancel")
+                if r.random() < 0.5:
+                    toks.append("a:9:7")
+            if g:
+                toks.append("k:7:r:" + ",".join(g))
+            toks.append("run")
+        for e in evs:
+            ctx.count("accept.ev." + (e[1:] if e[0] == "e" else "conn"))
+        cases.append("sc " + " ".join(toks))
+    return cases
+
+
+def gen_connect(ctx, n):
+    r = ctx.rng
+    cases = []
+    small = "SFATK"
+    # every address list up to length 3 over the five basic outcomes, with and without timeout
+    lists = [""]
+    for ln in (1, 2, 3):
+        lists += ["".join(x) for x in __import__("itertools").product(small, repeat=ln)]
+    for outs in lists:
+        for timeo in "01":
+            cases.append("conn %s %s %s" % (timeo, outs or "-", "s" * (len(outs) + 1)))
+    ctx.count("connect.exhaustive_len<=3", len(cases))
+    full = "SNFHABTKIJ"
+    for _ in range(n):
+        ln = r.choice([1, 2, 3, 4, 5, 6, 8])
+        outs = "".join(r.choice(full) for _ in range(ln))
+        if r.random() < 0.3:       # make sure long all-fail lists occur
+            outs = "".join(r.choice("SNFHABT") for _ in range(ln))
+        timeo = r.choice("011")
+        steps = ln + 1
+        ops = [r.choice("sssr") for _ in range(r.choice([steps, steps, steps, r.randrange(0, steps + 1)]))]
+        if r.random() < 0.35:
+            ops.insert(r.randrange(0, len(ops) + 1), "x")
+            ctx.count("connect.cancel")
+        if "r" in ops:
+            ctx.count("connect.race")
+        cases.append("conn %s %s %s" % (timeo, outs, "".join(ops) or "-"))
+    return cases
+
+
+def _nbr_block(r, depth, state):
+    """ops executed inside a wait callback: consume something, maybe wait again"""
+    toks = []
+    if r.random() < 0.85:
+        toks.append("nrc:%d" % r.choice([0, 1, state["k"], max(0, state["k"] - 1), state["k"] + 7, 100000]))
+    if r.random() < 0.15:
+        toks.append("nrp")
+    if depth > 0 and r.random() < 0.8:
+        k = r.choice(state["sizes"])
+        state["k"] = k
+        state["total"] += k
+        toks.append("nrw:%d" % k)
+        inner = _nbr_block(r, depth - 1, state)
+        if inner:
+            toks += ["{"] + inner + ["}"]
+    return toks
+
+
+def gen_nbr(ctx, n, big_every=8):
+    r = ctx.rng
+    cases = []
+    for i in range(n):
+        big = (i % big_every == 0)
+        sizes = [0, 1, 1, 2, 100, 4095, 4096, 4097, 8192] + ([100000] if big else [])
+        if not big:
+            sizes += [r.randrange(1, 9000)]
+        state = {"k": 0, "total": 0, "sizes": sizes}
+        toks = ["nri:5"]
+        nwaits = r.choice([1, 2, 3, 4])
+        feeds = []
+        for w in range(nwaits):
+            k = r.choice(sizes)
+            state["k"] = k
+            state["total"] += k
+            toks.append("nrw:%d" % k)
+            blk = _nbr_block(r, r.choice([0, 1, 2, 3]), state)
+            if blk:
+                toks += ["{"] + blk + ["}"]
+            # arrival pattern for what has been asked so far
+            total = state["total"] + r.choice([0, 0, 1, 4096, 5000])
+            state["total"] = 0
+            term = r.choice(["none"] * 6 + ["eof", "err"])
+            ctx.count("nbr.term." + term)
+            evs = []
+            left = total
+            while left > 0:
+                evs += _retry_burst(r)
+                piece = r.choice([1, 2, 100, 4095, 4096, 4097, 8192, 50000, 100000, left, r.randrange(1, left + 1)])
+                piece = max(1, min(piece, left))
+                evs.append("d%d" % piece)
+                left -= piece
+                if len(evs) > 60:
+                    evs.append("d%d" % left) if left else None
+                    left = 0
+            if term == "eof":
+                evs.insert(r.randrange(0, len(evs) + 1), "z")
+            elif term == "err":
+                evs.insert(r.randrange(0, len(evs) + 1), "e" + r.choice(HARD_RW))
+            groups = _chunks(r, evs)
+            cancel_at = r.choice([None] * 5 + [0, 1])
+            for gi, g in enumerate(groups):
+                if cancel_at == gi:
+                    toks.append("nrx")
+                    ctx.count("nbr.cancel")
+                    if r.random() < 0.7:
+                        toks.append("nrw:%d" % r.choice(sizes))
+                if g:
+                    toks.append("k:5:r:" + ",".join(g))
+                toks.append("run")
+            if r.random() < 0.3:
+                toks.append("nrp")
+            if r.random() < 0.3:
+                toks.append("nrc:%d" % r.choice([0, 1, 50, 4096, 100000]))
+        ctx.count("nbr.big" if big else "nbr.small")
+        cases.append("sc " + " ".join(toks))
+    return cases
+
+
+def gen_nbw(ctx, n, big_every=8):
+    r = ctx.rng
+    cases = []
+    for i in range(n):
+        big = (i % big_every == 0)
+        sizes = [0, 0, 1, 1, 2, 100, 4095, 4096, 4097, 8192] + ([100000] if big else [r.randrange(0, 9000)])
+        toks = ["nwi:6"]
+        total = 0
+        nops = r.choice([1, 2, 3, 5, 8])
+        term = r.choice(["none"] * 5 + ["err", "err"])
+        ctx.count("nbw.term." + term)
+        for j in range(nops):
+            c = r.random()
+            if c < 0.6:
+                k = r.choice(sizes)
+                toks.append("nww:%d" % k)
+                total += k
+                ctx.count("nbw.write0" if k == 0 else "nbw.write")
+            else:
+                k = r.choice(sizes)
+                jn = r.choice([0, k, k, k // 2, max(0, k - 1)])
+                toks += ["nwr:%d" % k, "nwc:%d" % jn]
+                total += jn
+                ctx.count("nbw.consume0" if jn == 0 else "nbw.consume")
+            if r.random() < 0.5:
+                # let the transport make some progress now
+                room = r.choice([1, 100, 4095, 4096, 4097, 10000, 200000])
+                evs = _retry_burst(r) + ["n%d" % room]
+                if term == "err" and r.random() < 0.3:
+                    evs.append("e" + r.choice(HARD_RW))
+                    term = "done"
+                toks += ["k:6:w:" + ",".join(evs), "run"]
+        evs = []
+        left = total + 10
+        while left > 0 and len(evs) < 80:
+            evs += _retry_burst(r)
+            room = r.choice([1, 7, 4095, 4096, 4097, 100000, 200000, left])
+            evs.append("n%d" % max(1, room))
+            left -= room
+        if term == "err":
+            evs.insert(r.randrange(0, len(evs) + 1), "e" + r.choice(HARD_RW))
+        toks += ["k:6:w:" + ",".join(evs), "run"]
+        if r.random() < 0.4:
+            toks += ["nww:%d" % r.choice(sizes), "run"]
+        cases.append("sc " + " ".join(toks))
+    return cases
+
+
+def corpus_cases(prefixes):
+    """corpus/net/<prefix>*.case, one case per line; run before the generated cases"""
+    import glob
+    import os
+    out = []
+    for p in sorted(glob.glob(os.path.join(vlib.VERIF, "corpus", "net", "*.case"))):
+        if not os.path.basename(p).startswith(tuple(prefixes)):
+            continue
+        for line in open(p):
+            line = line.strip()
+            if line and not line.startswith("#"):
+                out.append(line)
+    return out
+
+
+# ------------------------------------------------------------------ the sub-checks
+def _run(ctx, sub, cases, checker, rule, want_kinds=("sc",)):
+    exe, mexe = build(ctx, sub)
+    if not exe or not mexe:
+        return
+    impl, st = vlib.run_sharded(exe, cases, env=ASAN_ENV)
+    model, _ = vlib.run_sharded(mexe, cases)
+    nd = nk = 0
+    nontrivial = set()
+    for c, a, m in zip(cases, impl, model):
+        core, extra, status = split_impl(a)
+        toks = core.split()
+        viol, known = checker(c, toks, extra)
+        viol = list(viol) + extras_ok(extra, status)
+        nontrivial.add((c.split()[0], re.sub(r"\d+", "#", core)[:400]))
+        if viol:
+            nd += 1
+            if nd <= 4:
+                ctx.fail(sub, "property", c, "; ".join(viol[:3]) + " || impl=" + a[:400], property_fails=True)
+        elif core != m:
+            nd += 1
+            if nd <= 4:
+                ctx.fail(sub, "diff", c, "impl=%s model=%s" % (core[:500], m[:500]), property_fails=False)
+        if known:
+            nk += 1
+            if nk <= 1:
+                ctx.fail(sub, "property", c, known + " || impl=" + a[:300], property_fails=True, signature=SIG_CANCEL_LOSS)
+    if len(impl) != len(cases) or len(model) != len(cases):
+        ctx.fail(sub, "crash", "", "output count mismatch impl=%d model=%d cases=%d" % (len(impl), len(model), len(cases)))
+    for rc, err in st:
+        if rc != 0:
+            ctx.fail(sub, "crash", "", "driver exit rc=%d: %s" % (rc, err[-300:]), property_fails=True)
+    ctx.count(sub + ".disagreements", nd)
+    if nk:
+        ctx.count("nbr.cancel_partial_loss", nk)
+    ctx.record(sub, cases, nontrivial, rule, samples=[cases[0], cases[-1]])
+
+
+def _sc_checker(c, toks, extra):
+    return check_sc(c, toks)
+
+
+def _conn_checker(c, toks, extra):
+    return check_conn(c, toks, extra), None
+
+
+def check_net_rw(ctx):
+    cases = corpus_cases(("rw_",)) + gen_rw(ctx, ctx.n(1500, 40000))
+    _run(ctx, "net_rw", cases, _sc_checker,
+         "network_read / network_write requests with (buflen, min) from a boundary list, kernel answers in random "
+         "pieces with EAGAIN/EWOULDBLOCK/EINTR bursts, EOF and hard errors at any offset, cancel at chosen instants, "
+         "back-to-back requests from inside callbacks, read+write on one descriptor; impl log diffed against the "
+         "extracted model and checked by an independent predicate evaluator; non-trivial = distinct log shape")
+
+
+def check_net_connect(ctx):
+    cases = corpus_cases(("conn_",)) + gen_connect(ctx, ctx.n(700, 20000))
+    _run(ctx, "net_connect", cases, _conn_checker,
+         "network_connect / network_connect_timeo over every address list of length <= 3 on {fail-now (socket), "
+         "fail-now (connect), async error, timeout, ok} and random longer lists on 10 outcome kinds, steps / timer "
+         "races / cancel at every instant; sockets closed, attempts, callbacks checked independently")
+
+
+def check_net_accept(ctx):
+    cases = corpus_cases(("acc_",)) + gen_accept(ctx, ctx.n(500, 12000))
+    _run(ctx, "net_accept", cases, _sc_checker,
+         "network_accept with retry bursts (EAGAIN, EWOULDBLOCK, ECONNABORTED, EINTR), hard errors, chained accepts "
+         "from inside the callback, cancel")
+
+
+def check_netbuf_read(ctx):
+    cases = corpus_cases(("nbr_", "cancel_partial_loss")) + gen_nbr(ctx, ctx.n(700, 20000))
+    _run(ctx, "netbuf_read", cases, _sc_checker,
+         "netbuf reader: wait/peek/consume/cancel scripts (also from inside the wait callback) with k from "
+         "{0,1,4095,4096,4097,8192,100000,random} against arrival segmentations down to one byte, EOF and errors at "
+         "any position; every peek compared with the peer stream by an independent evaluator")
+
+
+def check_netbuf_write(ctx):
+    cases = corpus_cases(("nbw_",)) + gen_nbw(ctx, ctx.n(700, 20000))
+    _run(ctx, "netbuf_write", cases, _sc_checker,
+         "netbuf writer: write / reserve+consume with sizes {0,1,4095,4096,4097,8192,100000,random}, partial sends, "
+         "retry bursts, transport failure at any position; wire = prefix of concat(writes), fail callback once")
+
+
+SUBCHECKS = {"C06": [check_net_rw, check_net_connect, check_net_accept],
+             "C07": [check_netbuf_read, check_netbuf_write]}
